@@ -13,12 +13,16 @@ Spec-on-impl: Compile(f1) succeeds and the two projections are equal — boards 
 order), per board the objects (id + attribute list), the connections (endpoints, arrows, index, attribute list),
 legend, configuration data.  The equality is evaluated here.
 
-Signature of a violation: `graphdiff/<where>/<what>` with <where> ∈ root|layer|scenario|step (innermost board of
-the first difference); two refinements name the known root causes precisely:
-  `…/value-case`  the only difference at that place is a value that became its own lower-casing and is a reserved
-                  keyword (printer lower-cases unquoted keyword-like VALUES; shared with C05),
-  `…/board-order` the difference is inside a scenario/step and the source declares something after a
-                  scenarios/steps block in the same map (formatter moves boards last; design-level).
+Signature of a violation: `graphdiff/<cause>[+model]` / `recompile-error/<cause>[+model]`.  <cause> names the root
+cause from the place of the first difference (root|layer|scenario|step, what differs) and source features:
+  value-case        the difference is only the letter case of a value and the source holds an unquoted keyword-like
+                    string in odd case (printer lower-cases keyword-like VALUES; shared with C05),
+  board-order       the difference is in or below a scenario/step and the source declares something after a
+                    scenarios/steps block in the same map (formatter moves boards last; design-level),
+  board-order-glob  a declaration follows a board block and the source uses globs (lazy glob application),
+  empty-board-map, quoted-board-key, key-case, backslash-crlf   (see props/C04/findings.json),
+  unexplained:<where>/<what>   none of the above: always reported.
+`+model` is appended when the abstract evaluator disagrees with the real compile on that case.
 Model-vs-impl: on the evaluator sub-fragment (FmtSem) the abstract evaluator's board/object tree is compared with g1.
 -/
 
@@ -188,11 +192,13 @@ def handleC04 (j : Json) : Except String Verdict := do
           let want2 := D2V.FmtSem.render (D2V.FmtSem.evalRoot (D2V.FmtSem.blDecls p))
           let got2 ← renderJson g2
           if want2 != got2 then pure (some s!"evaluator(boardsLast) {want2} vs Compile(Format s) {got2}") else pure none)
+  -- a known-finding entry keyed to a cause never hides a disagreement between the evaluator and the real compile
+  let modelTag := match modelMis with | some _ => "+model" | none => ""
   let kwAny := hasFeat o "sf" "kwcase:value" || hasFeat o "sf" "kwcase:key-segment" || hasFeat o "sf" "kwcase:import"
   -- root cause named from the place of the first difference and the source features (see the header)
-  let causeOf (whereK what : String) : String :=
+  let causeOf (whereK what : String) (under : Bool) : String :=
     if what == "value-case" && kwAny then "value-case"
-    else if (whereK == "scenario" || whereK == "step") && hasFeat o "sf" "boards:decl-after-scenarios-or-steps" then "board-order"
+    else if (whereK == "scenario" || whereK == "step" || under) && hasFeat o "sf" "boards:decl-after-scenarios-or-steps" then "board-order"
     else if (hasFeat o "sf" "boards:decl-after-layers" || hasFeat o "sf" "boards:decl-after-scenarios-or-steps")
         && hasFeat o "sf" "glob:any" then "board-order-glob"
     else if whereK != "root" && hasFeat o "sf" "boards:empty-entry" then "empty-board-map"
@@ -210,12 +216,14 @@ def handleC04 (j : Json) : Except String Verdict := do
       else if hasFeat o "sf" "boards:empty-entry" then "empty-board-map"
       else if hasFeat o "sf" "text:backslash-crlf" then "backslash-crlf"
       else "unexplained"
-    return .specfalse s!"recompile-error/{cause}" s!"Compile(Format(Parse s)) fails: {e}{tail}"
+    return .specfalse s!"recompile-error/{cause}{modelTag}" s!"Compile(Format(Parse s)) fails: {e}{tail}"
   | .error _ => pure ()
   let g2 ← getObj o "g2"
   match ← cmpBoard "root" "" g1 g2 with
   | some d =>
-    return .specfalse s!"graphdiff/{causeOf d.whereK d.what}" (s!"[{d.whereK}/{d.what}] " ++ d.detail ++ tail)
+    -- `under`: the difference lies in a board below some scenario / step (it inherits through that board)
+    let under := (d.detail.splitOn "/scenarios/").length > 1 || (d.detail.splitOn "/steps/").length > 1
+    return .specfalse s!"graphdiff/{causeOf d.whereK d.what under}{modelTag}" (s!"[{d.whereK}/{d.what}] " ++ d.detail ++ tail)
   | none => pure ()
   let c1 ← strList o "cfg1"
   let c2 ← strList o "cfg2"
